@@ -538,7 +538,7 @@ def register(reg):
         @reg.contract
         class Obs(Contract):
             key = HC + "." + name
-            props = ("C05", "C09", "C01", "C06")
+            props = ("C05", "C09", "C01", "C06", "C04")
             result_kind = "bool"
             suspends = False
 
@@ -553,7 +553,7 @@ def register(reg):
                     z3.And(r == unconnected(c), z3.BoolVal(len(evs) == 0)),
                     z3.And(z3.BoolVal(len(evs) == 1), r == evs[0].data["result"].t, evs[0].data["conn"].t == conn.t) if evs else z3.BoolVal(False),
                 )
-                return [("delegates_or_reports_connect_state", ("C05", "C09", "C01", "C06"), goal)]
+                return [("delegates_or_reports_connect_state", ("C05", "C09", "C01", "C06", "C04"), goal)]
 
         Obs.__name__ = "Obs_" + name
         return Obs
